@@ -157,8 +157,11 @@ def run_case(case):
                 bump('second_or_later_calls')
             if call.get('budget'):
                 bump('calls_with_generous_budget')
+            import time as _time
+            t_call = _time.time()
             try:
                 df = m.inference(queries, multi_inference=call['multi'], **call.get('budget', {}))
+                t_call = _time.time() - t_call
                 del queries
                 if long_history:
                     import gc
@@ -220,8 +223,13 @@ def run_case(case):
                              got=[got_res[j], got_to[j]])
                     continue
                 if got_to[j]:
-                    viol('history:row-flagged-timed-out-without-budget%s' % (':other-worker-hung' if 'hang' in call else ''),
-                         script=script, call=tag, row=j, query=texts[i])
+                    if call['multi'] and t_call > 8.0:
+                        # the library joins workers with a real 10 s allowance when no budget is set: on an
+                        # overloaded machine a slow worker may really be timed out — environment, not a verdict
+                        res['inconclusive'].append('parallel call took %.1fs wall clock; flagged row not judged' % t_call)
+                    else:
+                        viol('history:row-flagged-timed-out-without-budget%s' % (':other-worker-hung' if 'hang' in call else ''),
+                             script=script, call=tag, row=j, query=texts[i])
                 elif got_res[j] != ref[i]:
                     viol('history:answer-differs-from-fresh-single-query:%s%s' % ('later-call' if ci else 'first-call',
                                                                                   ':with-budget' if call.get('budget') else ''),
